@@ -141,6 +141,54 @@ theorem C13_route_model_verdict_ok (cs : Bool) (fs : FS) (urlPath : Bytes) (rule
     · unfold routeVerdict
       split <;> simp_all
 
+/-! ### environment -/
+
+/-- For every request that `route` sends to rule `j` with script path `f`, the environment the
+model derives satisfies the environment verdict: every request header arrives as HTTP_*, every
+configured entry arrives, DOCUMENT_URI ++ PATH_INFO is the script path cut right after the first
+occurrence of the split string, and stdin is exactly the body.
+
+PARTIAL: it excludes HEAD and OPTIONS requests that carry a body — `Head`/`Options` pass no body
+reader, see `C13_head_options_body_fails_witness` and known finding C13-head-options-body. -/
+theorem C13_env_model_verdict_partial (cs : Bool) (srv : Server) (fs : FS) (r : Req) (rules : List Rule)
+    (j : Nat) (f : Bytes) (hroute : route cs fs r.path rules = .sent j f)
+    (hbody : (r.method ≠ bytes "HEAD" ∧ r.method ≠ bytes "OPTIONS") ∨ r.body = []) :
+    ∃ rule env, rules[j]? = some rule ∧ buildEnv cs srv r rule f = some env ∧
+      envVerdict cs r rule env (stdinOf r) = "ok" := by
+  unfold route at hroute
+  split at hroute
+  · cases hroute
+  · obtain ⟨rule, hr, _, htr⟩ := routeFrom_sent_rule cs fs r.path rules 0 j f hroute
+    simp only [Nat.sub_zero] at hr
+    obtain ⟨hcand, hsp⟩ := tryRule_sent_candidate cs fs r rule f htr
+    have hstd : stdinOf r = r.body := by
+      unfold stdinOf
+      rcases hbody with ⟨h1, h2⟩ | h0
+      · have e1 : (r.method == bytes "HEAD") = false := by simpa using h1
+        have e2 : (r.method == bytes "OPTIONS") = false := by simpa using h2
+        simp [e1, e2]
+      · split <;> simp [h0]
+    rcases hb : buildEnv cs srv r rule f with _ | env
+    · exfalso
+      unfold buildEnv at hb
+      cases hh : splitPos cs rule f with
+      | none => rw [hh] at hsp; cases hsp
+      | some sp => rw [hh] at hb; cases hb
+    · exact ⟨rule, env, hr, hb, envVerdict_buildEnv cs srv r rule f env hb hcand hstd⟩
+
+/-- the excluded case does fail: an OPTIONS request with a one-byte body under the php preset —
+the responder's stdin is empty -/
+theorem C13_head_options_body_fails_witness :
+    let r : Req := { method := bytes "OPTIONS", host := bytes "h", path := bytes "/a.php",
+                     remoteAddr := bytes "1:2", body := [0x78] }
+    let rule : Rule := { path := [0x2f], ext := bytes ".php", split := bytes ".php" }
+    route false [bytes "/a.php"] r.path [rule] = .sent 0 (bytes "/a.php") ∧
+    stdinOf r = [] ∧
+    (buildEnv false { name := [], port := [], software := [] } r rule (bytes "/a.php")).map
+      (fun env => envVerdict false r rule env (stdinOf r)) =
+      some "bad:body:the responder does not receive exactly the request body" := by
+  decide +kernel
+
 /-! ### the judges accept the model's answers -/
 
 theorem count_self_eq (p : Pair) (l : List Pair) : (count p l == count p l) = true := by simp
